@@ -160,6 +160,16 @@ HISTORY = {
  "C19-i": ("first run: missed (at most 3 machines on a side); after the big generator: C19 monitor (panic)", ["C19"]),
  "C20-i": ("first run: missed (at most 5 machines); after sessions with 65..130 machines: C20 monitor", ["C20"]),
  "C18-j": ("not caught: needs an Integration with a non-zero trigger delay (outside the simulator model, DESIGN 12.12)", []),
+ "C14-i": ("first run: missed (trace times started near 0); after traces with absolute timestamps beyond 2^53 ns: C14 monitor", ["C14"]),
+ "C15-i": ("first run: missed; a generous gap was not enough (wrapped keys still sorted after the first part); after gaps landing just past 2^32 microseconds: C15 monitor (order)", ["C15"]),
+ "C04-l": ("not caught: needs more than 65535 machines (the generators stop at 300)", []),
+ "C08-k": ("not caught: needs the 65535th call on one instance (the generators stop at 700 calls)", []),
+ "C05-k": ("first run: C02 monitor only (exact fraction); after c02frac cases in C05: C05 (correspondence)", ["C02", "C05"]),
+ "C11-k": ("first run: missed (the allocation bound allowed for 65536 states whatever was decoded); after the bound used the number of states the model's decoder can complete and the bomb with an incompressible head: C11 monitor (allocation)", ["C11"]),
+ "C12-l": ("first run: missed (Framework::new was only called with one machine); after Framework::new next to a valid neighbour: C12 monitor", ["C12"]),
+ "C13-k": ("first run: missed; after Uniform inverted by one ulp: C13 and C12 monitors", ["C13", "C12"]),
+ "C14-l": ("first run: missed (generated trace files had no non-record lines); after empty / blank / one-word lines: C14 and C15 monitors", ["C14", "C15"]),
+ "C18-k": ("first run: missed; after the tie-plus-Signal scenario: C18 by correspondence (the monitor's own failure carries the S1 tag of the open finding)", ["C18"]),
 }
 
 
